@@ -20,6 +20,8 @@ LEVEL_TEXT = ('static: codec format tables (writer vs reader vs OSC 1.0), paddin
               'list, predictor-vs-writer size expressions per type, clump arithmetic, accepted-shape comparison, /d_recv '
               'size test. Does not decide value round-trip or float32 coercion.')
 LEVEL_NOTE = 'OSC 1.0 atom table in the rule module is the external oracle; struct semantics trusted'
+LEVEL_TEXT_ADD = ' Also: writer/reader agreement on what cannot be carried (null bytes in strings, addresses the reader does not recognise).'
+LEVEL_TEXT = (globals().get('LEVEL_TEXT') or EXPLANATION) + LEVEL_TEXT_ADD
 TECHNIQUE = 'static analysis: decision-table extraction + arithmetic evaluation of padding/size expressions over residues'
 
 OSC_ATOMS = {  # tag -> (struct format, width) per OSC 1.0
